@@ -283,7 +283,15 @@ def check_construction(data: dict, lab: Labels) -> None:
         else:
             v = gen_conforming(a, d)
             if mode >= 2:
-                if CF.strip_newtype(a)["k"] == "tuple_fix" and isinstance(v, dict) and "tuple" in v and d.chance(1, 2):
+                a1 = CF.strip_newtype(a)
+                inner = CF.strip_newtype(a1["of"]) if a1["k"] == "tuple_var" else None
+                if inner is not None and inner["k"] == "scalar" and inner["n"] in ("int", "bool") and d.chance(1, 2):
+                    # breadth: a long homogeneous tuple whose only offender is `==` to an earlier, conforming
+                    # element (True after 1, 1 after True) - every element counts, not every distinct value
+                    n_el = 33 + d.next(30)
+                    v = {"tuple": [*range(n_el), True]} if inner["n"] == "int" else {"tuple": [*([True, False] * (n_el // 2 + 1)), 1]}
+                    lab.tag("long-tuple-offender-equal-to-earlier-element")
+                elif CF.strip_newtype(a)["k"] == "tuple_fix" and isinstance(v, dict) and "tuple" in v and d.chance(1, 2):
                     xs = v["tuple"]  # exact-length rule: one element too many / too few
                     v = {"tuple": [*xs, xs[-1]]} if d.chance(1, 2) else {"tuple": xs[:-1]}
                 else:
